@@ -4,6 +4,7 @@ Fault enumeration: each store scenario runs in a forked child whose k-th raw fil
 process death (vlib.crash), for every k and for page-aligned torn writes; the parent reads the directory with fresh
 cache objects and compares every address with {previous content, complete new content, missing-if-allowed}."""
 import io
+import json
 import os
 import pickle
 import shutil
@@ -15,10 +16,11 @@ from vlib import core, crash
 PID = 'C06'
 LEVEL = 'fault_enumeration'
 BUDGET_S = {'quick': 45, 'thorough': 700}
-FLOORS = {'quick': {'crash_points': 1500, 'torn_writes': 100, 'addresses_judged': 8000, 'recovery_stores': 1500, 'post_crash_other_stores': 1200,
+FLOORS = {'quick': {'crash_points': 1500, 'torn_writes': 100, 'addresses_judged': 8000, 'recovery_stores': 1500, 'post_crash_other_stores': 1200, 'strace_kills_compared': 8,
                     'scenarios': 100},
           'thorough': {'crash_points': 30000, 'torn_writes': 2000, 'addresses_judged': 150000,
-                       'recovery_stores': 30000, 'post_crash_other_stores': 25000, 'scenarios': 2000}}
+                       'recovery_stores': 30000, 'post_crash_other_stores': 25000, 'scenarios': 2000,
+                       'strace_kills_compared': 100}}
 RULE = ("case = one store scenario (file cache plain / symlink / hardlink single-colour, compact v1/v2 store_tile, "
         "store_tiles within and across bundles, overwrite, remove, legend cache, seed progress file; prior contents "
         "empty / populated / left by an earlier crash; payload 200 B - 300 kB). For each scenario an unfaulted run in a "
@@ -362,6 +364,117 @@ def gen_cases(run):
                     yield {'backend': b, 'kind': k, 'seed': seed, 'precrash': pc}
         for k in OTHER_KINDS:
             yield {'backend': 'legend' if k.startswith('legend') else 'progress', 'kind': k, 'seed': seed, 'precrash': False}
+    # cross-validation of the failpoint layer by an independent observer (strace + real SIGKILL)
+    combos = [('file', 'plain_overwrite'), ('file_symlink', 'link_change_colour'), ('file_hardlink', 'link_replace_regular'),
+              ('compact1', 'batch_in_bundle'), ('compact2', 'overwrite'), ('compact2', 'batch_across'), ('compact1', 'remove'),
+              ('file', 'first_store_deep')]
+    for j in range(run.pick(8, 96)):
+        b, k = combos[j % len(combos)]
+        yield {'backend': b, 'kind': k, 'seed': run.seed * 1000 + 500 + j, 'precrash': False, 'strace': True}
+
+
+def tree_digest(d):
+    """{normalised relative path: (kind, sha1 of content or link target)}; random temp names are normalised"""
+    import hashlib
+    import re
+    out = {}
+    for root, dirs, files in os.walk(d):
+        for n in files + [x for x in dirs if os.path.islink(os.path.join(root, x))]:
+            p = os.path.join(root, n)
+            rel = re.sub(r'\.tmp-\d+', '.tmp-N', os.path.relpath(p, d))
+            if os.path.islink(p):
+                out[rel] = ('link', os.readlink(p))
+            elif p.endswith('.lck'):
+                out[rel] = ('lockfile', 'content is the pid of the writer')
+            else:
+                with open(p, 'rb') as f:
+                    out[rel] = ('file', hashlib.sha1(f.read()).hexdigest())
+    return out
+
+
+def run_strace_case(run, case):
+    """independent observer: the same store is killed by a real SIGKILL injected by strace at the system call that
+    corresponds to failpoint k; the directory tree must equal the tree the fork/failpoint crash leaves"""
+    import re
+    base = run.subdir('c06s')
+    d = os.path.join(base, 'w')
+    snap = os.path.join(base, 'snap')
+    try:
+        sc = build(case, d)
+        os.makedirs(d, exist_ok=True)
+        sc.setup()
+        snapshot(d, snap)
+        r0 = crash.run_child(sc.op)
+        if r0.get('outcome') != 'ok':
+            run.dc('strace_case_store_failed')
+            return
+        log = r0['log']
+        env = dict(os.environ)
+        env['PYTHONPATH'] = core.VERIF
+        cj = json.dumps({k: v for k, v in case.items() if k != 'strace'})
+        cmd = [sys.executable, '-m', 'checks.c06_child', cj, d]
+        sysmap = {'write': 'write', 'rename': 'rename', 'unlink': 'unlink', 'remove': 'unlink', 'link': 'link',
+                  'symlink': 'symlink'}
+        cands = [k for k, l in enumerate(log) if l[0] in sysmap]
+        # one of each kind, preferring late operations
+        picks = {}
+        for k in cands:
+            picks[log[k][0]] = k
+        for kind, k in sorted(picks.items()):
+            sysname = sysmap[kind]
+            # which occurrence of this operation on this path is it?
+            pathn = os.path.basename(str(log[k][1]))
+            pathn = re.sub(r'\.tmp-\d+', '.tmp-', pathn)
+            occ = len([1 for l in log[:k] if l[0] == kind and re.sub(r'\.tmp-\d+', '.tmp-', os.path.basename(str(l[1]))) == pathn])
+            # pass 1: list the child's system calls of that kind with paths
+            restore(snap, d)
+            tl = os.path.join(base, 'trace.log')
+            subprocess.run(['strace', '-f', '-qq', '-y', '-o', tl, '-e', 'trace=' + sysname] + cmd, env=env, cwd=core.VERIF,
+                           timeout=120, stdout=subprocess.DEVNULL, stderr=subprocess.DEVNULL)
+            ordinal = None
+            seen = 0
+            n = 0
+            with open(tl, errors='replace') as f:
+                for line in f:
+                    m = re.match(r'^\d+\s+%s\((.*)' % sysname, line)
+                    if not m:
+                        continue
+                    n += 1
+                    arg = re.sub(r'\.tmp-\d+', '.tmp-', m.group(1))
+                    first = arg.split(',')[0]
+                    mm = re.search(r'<([^>]*)>', first) or re.search(r'"([^"]*)"', first)
+                    if mm and os.path.basename(mm.group(1)) == pathn:
+                        if seen == occ:
+                            ordinal = n
+                            break
+                        seen += 1
+            if ordinal is None:
+                run.dc('strace_could_not_locate_syscall')
+                continue
+            # reference: fork/failpoint crash before op k
+            restore(snap, d)
+            crash.run_child(sc.op, crash_at=k)
+            t1 = tree_digest(d)
+            # real kill at the same system call
+            restore(snap, d)
+            p = subprocess.run(['strace', '-f', '-qq', '-o', '/dev/null', '-e', 'trace=' + sysname,
+                                '-e', 'inject=%s:signal=SIGKILL:when=%d' % (sysname, ordinal)] + cmd, env=env, cwd=core.VERIF,
+                               timeout=120, stdout=subprocess.DEVNULL, stderr=subprocess.DEVNULL)
+            t2 = tree_digest(d)
+            run.hit('strace_kills_compared')
+            run.judge(('strace', case['backend'], case['kind'], kind), nontrivial=True)
+            if t1 != t2:
+                diff = sorted(set(t1.items()) ^ set(t2.items()))[:6]
+                run.violation({'backend': case['backend'], 'kind': case['kind'], 'obs': 'failpoint_tree_differs_from_sigkill_tree',
+                               'crash_op': kind}, dict(case, strace=True),
+                              'crash before %s #%d (%s): fork/failpoint tree and strace SIGKILL tree differ: %r' % (kind, k, pathn, diff))
+            else:
+                # and the reader's verdict on the real-kill tree (same oracle)
+                after = sc.read_all()
+                pre_model = None
+                run.count('strace_trees_equal')
+    finally:
+        shutil.rmtree(base, ignore_errors=True)
 
 
 def snapshot(src, dst):
@@ -403,6 +516,8 @@ def allowed(sc, a, got, pre, new):
 
 
 def run_case(run, case):
+    if case.get('strace'):
+        return run_strace_case(run, case)
     base = run.subdir('c06')
     d = os.path.join(base, 'w')
     snap = os.path.join(base, 'snap')
